@@ -74,6 +74,7 @@ impl E2e {
             s2c: self.s2c.clone(),
             sched: Sched::Explicit(vec![]),
             order: Order::Emission,
+            latency: 0,
         }
     }
 }
@@ -320,6 +321,7 @@ pub fn judge(d: &E2e, o: &E2eOut) -> Vec<crate::oracle::Complaint> {
         retx_seen: 0,
         final_counts: vec![],
         diag: o.diag.clone(),
+        latency: 0,
     };
     let mut v = crate::oracle::judge(&d.as_scn(), &po).complaints;
     for c in v.iter_mut() {
